@@ -256,9 +256,12 @@ example : step blockedState 7 (.create "bob" "alice" (some "alice") "{}" "" true
 model was written against them; `Generated.keyFns_notifications` is recomputed from the source on every
 run (the declarations are listed in Generated/KeyFacts.lean). -/
 def C18_expectedKeys : List (String × String) := [
+  ("x/notifications/types/key_notifications.go:var _…", "9f4fce2c5ae85adc"),
+  ("x/notifications/types/key_notifications.go:const NotificationsKeyPrefix…", "f955c359fa031f3b"),
   ("x/notifications/types/key_notifications.go:NotificationsKey", "7ea6422a0221239d"),
   ("x/notifications/types/key_notifications.go:BlockKey", "1ae5b03dec6f8eae"),
   ("x/notifications/types/key_notifications.go:IsNotificationKey", "8c06cab11b0d19b9"),
+  ("x/notifications/types/keys.go:const ModuleName…", "7ed3769dc4c890d8"),
   ("x/notifications/types/keys.go:KeyPrefix", "caccc65e7667915d")]
 
 theorem C18_store_keys_as_modelled : Generated.keyFns_notifications = C18_expectedKeys := by decide
